@@ -91,13 +91,14 @@ Proof. exact result_is_jobs. Qed.
 Print Assumptions C20_result_is_jobs.
 
 (* the retry loop ends: three requests after the last fault at the latest (OutOfFuel is unreachable with that fuel) *)
-Theorem C20_terminates_after_faults : forall fs s cur fuel,
-  length fs + 3 <= fuel -> out_of (client fuel s cur fs) <> OutOfFuel.
+Theorem C20_terminates_after_faults : forall fs s zs cur fuel,
+  length fs + 3 <= fuel -> out_of (client fuel s zs cur fs) <> OutOfFuel.
 Proof. exact terminates_after_faults. Qed.
 Print Assumptions C20_terminates_after_faults.
 
-(* after any finite sequence of retryable stream failures (before / after the server processed the request) the
-   execution returns the job's result, the job having been created at most once *)
+(* after any finite sequence of retryable stream failures (before / after the server processed the request; requests
+   overtaken by a break being handled later at arbitrary points, or never) the execution returns the job's result, the
+   job having been created at most once *)
 Theorem C20_returns_after_retryable_faults : forall fs s, Forall benign fs ->
   exists fuel,
     out_of (run_client fuel s fs) = Returned /\
@@ -107,13 +108,13 @@ Proof. exact returns_after_retryable_faults. Qed.
 Print Assumptions C20_returns_after_retryable_faults.
 
 (* non-retryable stream exceptions and non-retryable error codes surface to the caller *)
-Theorem C20_nonretryable_surfaces : forall f s cur fs,
+Theorem C20_nonretryable_surfaces : forall f s zs cur fs,
   (forall x, retryable x = false ->
-     out_of (client (S f) s cur (BreakBefore x :: fs)) = RaisedExn x /\
-     out_of (client (S f) s cur (BreakAfter x :: fs)) = RaisedExn x) /\
-  (forall c, retry c cur = None -> out_of (client (S f) s cur (Reject c :: fs)) = RaisedStream c) /\
+     out_of (client (S f) s zs cur (BreakBefore x :: fs)) = RaisedExn x /\
+     out_of (client (S f) s zs cur (BreakAfter x :: fs)) = RaisedExn x) /\
+  (forall c, retry c cur = None -> out_of (client (S f) s zs cur (Reject c :: fs)) = RaisedStream c) /\
   (forall s' c, serve s cur = (s', PErr c) -> retry c cur = None ->
-     out_of (client (S f) s cur (NoFault :: fs)) = RaisedStream c).
+     out_of (client (S f) s zs cur (NoFault :: fs)) = RaisedStream c).
 Proof. exact nonretryable_surfaces. Qed.
 Print Assumptions C20_nonretryable_surfaces.
 
@@ -157,6 +158,12 @@ Example C20_stream_example_benign :
   Forall benign [BreakBefore XServiceUnavailable; NoFault; BreakAfter XUnknown] /\
   run_client 8 (mkserver false false 0) [BreakBefore XServiceUnavailable; NoFault; BreakAfter XUnknown]
   = (mkserver true true 1, Returned, [CreateProgJob; GetResult; CreateJob; GetResult; CreateJob; CreateProgJob]).
+Proof. split; [repeat apply Forall_cons; try apply Forall_nil; simpl; auto|vm_compute; reflexivity]. Qed.
+(* the race the JOB_ALREADY_EXISTS rule exists for: the create request overtaken by a break is handled late *)
+Example C20_stream_example_late :
+  Forall benign [BreakBefore XUnknown; NoFault; Late 0] /\
+  run_client 8 (mkserver false false 0) [BreakBefore XUnknown; NoFault; Late 0]
+  = (mkserver true true 1, Returned, [CreateProgJob; GetResult; CreateJob; GetResult]).
 Proof. split; [repeat apply Forall_cons; try apply Forall_nil; simpl; auto|vm_compute; reflexivity]. Qed.
 Example C20_stream_example_raises :
   out_of (run_client 8 (mkserver false false 0) [BreakAfter XNotFound]) = RaisedExn XNotFound /\
